@@ -101,18 +101,16 @@ func checkMatchFlag(w *World, r *Report, tm *Terms, tree map[*ssa.Function]bool)
 		onMatched bool
 	}
 	var sites []site
-	for _, fn := range sortedFns(tree) {
-		fr := tm.Root(fn)
-		for _, b := range fn.Blocks {
-			for _, in := range b.Instrs {
-				e := w.EffectOf(in)
-				if e == nil || e.Kind != EffStoreWrite || e.Coll != "Bid" || e.Method != "Set" {
-					continue
-				}
+	// the Bid writes of block processing, each in its calling context (a shared setter helper is judged per caller)
+	for _, cs := range tm.sitesWhere([]*ssa.Function{w.beginBlockFn()}, func(fr *Frame, in ssa.Instruction) bool {
+		e := w.EffectOf(in)
+		return e != nil && e.Kind == EffStoreWrite && e.Coll == "Bid" && e.Method == "Set" && len(in.(ssa.CallInstruction).Common().Args) >= 4
+	}) {
+		{
+			{
+				fr, in := cs.Fr, cs.In
+				fn := operationOf(w, in.Parent())
 				args := in.(ssa.CallInstruction).Common().Args
-				if len(args) < 4 {
-					continue
-				}
 				v := tm.OperandAt(fr, in, args[3])
 				s := site{in: in, fn: fn, flag: normField(v, "IsMatched", nil)}
 				// the list the record comes from
@@ -632,6 +630,8 @@ func (f *filterRule) decide(op token.Token, lt, rt *Term) AV {
 func checkQueryFilters(w *World, r *Report, tm *Terms, name string, fn *ssa.Function, reqN *types.Named, reqS *types.Struct) {
 	// find a call to query.CollectionFilteredPaginate with a predicate closure
 	var pred *ssa.Function
+	var predMC *ssa.MakeClosure
+	var predCall ssa.CallInstruction
 	for _, b := range fn.Blocks {
 		for _, in := range b.Instrs {
 			c, ok := in.(ssa.CallInstruction)
@@ -643,7 +643,7 @@ func checkQueryFilters(w *World, r *Report, tm *Terms, name string, fn *ssa.Func
 					f := mc.Fn.(*ssa.Function)
 					res := f.Signature.Results()
 					if res.Len() == 2 && types.Identical(res.At(0).Type(), types.Typ[types.Bool]) && pred == nil {
-						pred = f
+						pred, predMC, predCall = f, mc, c
 					}
 				}
 			}
@@ -664,7 +664,10 @@ func checkQueryFilters(w *World, r *Report, tm *Terms, name string, fn *ssa.Func
 			fr := &filterRule{reqN: reqN, field: fld, match: match}
 			x := NewExplorer(w, tm, fr)
 			got := map[string]bool{}
-			for _, o := range x.Run(pred, 0) {
+			// the predicate in the context in which it was made: a closure's captured variables and a bound method's
+			// receiver are what the handler computed
+			pfr := tm.EnterClosure(tm.Root(fn), predMC, predCall)
+			for _, o := range x.RunFrame(pfr, 0) {
 				if o.Kind == ExitReturn && len(o.Rets) == 2 && o.Rets[1].K != avNonNil {
 					got[o.Rets[0].String()] = true
 				}
